@@ -5,6 +5,10 @@
 package mon
 
 import (
+	"crypto"
+	"crypto/sha256"
+	"crypto/sha512"
+	"hash"
 	"crypto/rand"
 	"encoding/binary"
 	"encoding/json"
@@ -199,6 +203,17 @@ func (c *Ctx) exec(cs any) {
 		c.Res.Counters["cases-run-under-hostile-entropy"]++
 
 		defer func() { rand.Reader = old }()
+	}
+
+	// A hostile hash registry for one case in eight: some other package of the program has (re-)registered crypto.SHA256
+	// with something that is not SHA-256. A library that links and calls its hash directly never notices; one that looks
+	// it up in the process-wide registry computes garbage.
+	if !c.Prop.NoNoise && c.noiseRng.Intn(8) == 0 {
+		crypto.RegisterHash(crypto.SHA256, func() hash.Hash { return sha512.New512_256() })
+
+		c.Res.Counters["cases-run-under-a-hostile-hash-registry"]++
+
+		defer crypto.RegisterHash(crypto.SHA256, sha256.New)
 	}
 
 	c.Prop.Run(c, cs)
